@@ -1,6 +1,6 @@
 (* C15 -- the statements of Props/C15.v, assembled from Proofs/C15_MAP.v. *)
 From CV Require Import Base.Tac Base.LinAlg Base.Cmp Base.QcLin Model.C15_MAP Proofs.C15_Lin Proofs.C15_MAP.
-From Coq Require Import QArith Qcanon.
+From Coq Require Import QArith Qcanon Lqa.
 Local Open Scope Qc_scope.
 
 (* shapes of a linear-Gaussian problem with dense covariances *)
@@ -454,4 +454,98 @@ Proof.
     destruct (qinv_shape _ _ IPe) as [WPe SPe]. rewrite LCe in WPe.
     apply q_sym_of_transpose; [exact WPe | apply qcll_eqb_eq; exact KS].
   - intros Pe' Px' E1 E2. rewrite IPe in E1. injection E1 as <-. rewrite IPx in E2. injection E2 as <-. exists C. exact IC.
+Qed.
+
+(* ---------------------------------------------------------------------------------------------
+   positive semi-definiteness from the checked certificate; the maximality clause without assumptions
+   --------------------------------------------------------------------------------------------- *)
+Lemma scale_rows_matvec ws U v : qmatvec (scale_rows ws U) v = map (fun p => fst p * snd p) (combine ws (qmatvec U v)).
+Proof.
+  unfold scale_rows. revert U; induction ws as [|w ws IH]; intros [|r U]; try reflexivity.
+  cbn [combine map qmatvec matvec fst snd]. f_equal.
+  - apply (dot_vscale_l Qc 0 1 Qcplus Qcmult Qcminus Qcopp Qcrt).
+  - apply IH.
+Qed.
+
+Lemma qc_mul_nonneg a b : 0 <= a -> 0 <= b -> 0 <= a * b.
+Proof. unfold Qcle, Qcmult, Q2Qc. cbn [this]. rewrite !Qred_correct. intros. apply Qmult_le_0_compat; assumption. Qed.
+Lemma qc_sq_nonneg a : 0 <= a * a.
+Proof. unfold Qcle, Qcmult, Q2Qc. cbn [this]. rewrite !Qred_correct. nra. Qed.
+
+Lemma weighted_sq_nonneg ws t : Forall (fun w => 0 <= w) ws -> 0 <= qdot t (map (fun p => fst p * snd p) (combine ws t)).
+Proof.
+  intros H; revert t; induction H as [|w ws Hw H IH]; intros [|a t]; cbn [combine map qdot dot fst snd]; try apply Qcle_refl.
+  change (dot 0 Qcplus Qcmult t ?x) with (qdot t x).
+  replace 0 with (0 + 0) by ring. apply Qcplus_le_compat; [|apply IH].
+  replace (a * (w * a)) with (w * (a * a)) by ring.
+  apply qc_mul_nonneg; [exact Hw | apply qc_sq_nonneg].
+Qed.
+
+Lemma all_pos_nonneg ws : all_pos ws = true -> Forall (fun w => 0 <= w) ws.
+Proof.
+  unfold all_pos. intros H. apply Forall_forall. intros w Hw. rewrite forallb_forall in H. specialize (H w Hw).
+  apply negb_true_iff in H. unfold Qcle. cbn [this Q2Qc]. rewrite Qred_correct.
+  destruct (Qlt_le_dec 0 (this w)) as [L|L]; [apply Qlt_le_weak; exact L|].
+  apply Qle_bool_iff in L. rewrite L in H. discriminate.
+Qed.
+
+Lemma q_matvec_transpose n U y : wf_mat n U -> qmatvec (qtranspose n U) y = qmattvec n U y.
+Proof.
+  intros HU. rewrite (q_mattvec_as_cols n U y HU).
+  unfold qtranspose, transpose, qmatvec, matvec. rewrite map_map. reflexivity.
+Qed.
+
+Theorem psd_cert_sound n P : psd_cert n P = true -> forall v, length v = n -> 0 <= qdot v (qmatvec P v).
+Proof.
+  unfold psd_cert. destruct (elim_sym n P) as [U|]; [|discriminate]. intros H v Hv.
+  apply andb_true_iff in H as [H HP]. apply andb_true_iff in H as [H HW]. apply andb_true_iff in H as [Hpos HL].
+  apply Nat.eqb_eq in HL. apply qcll_eqb_eq in HP.
+  assert (WU : wf_mat n U).
+  { unfold wf_mat. apply Forall_forall. intros r Hr. rewrite forallb_forall in HW. apply Nat.eqb_eq. exact (HW r Hr). }
+  set (ws := map (fun d => / d) (diag_of U)) in *.
+  assert (WS : wf_mat n (scale_rows ws U)).
+  { unfold scale_rows, wf_mat. apply Forall_forall. intros r Hr. apply in_map_iff in Hr. destruct Hr as [[w r0] [<- Hin]].
+    cbn [fst snd]. rewrite q_vscale_length. apply in_combine_r in Hin. eapply Forall_forall in WU; eauto. }
+  rewrite <- HP. rewrite (q_matvec_matmul n _ _ v WS Hv). rewrite (q_matvec_transpose n U _ WU).
+  rewrite <- (q_adjoint n U v _ WU Hv). rewrite scale_rows_matvec.
+  apply weighted_sq_nonneg. apply all_pos_nonneg. exact Hpos.
+Qed.
+
+Example psd_example : psd_cert 3 (qmat [[2; 1; 0]; [1; 2; 1#2]; [0; 1#2; 3]]%Q) = true /\ psd_cert 2 (qmat [[1; 2]; [2; 1]]%Q) = false.
+Proof. split; vm_compute; reflexivity. Qed.
+
+Theorem mode_decided fixed m n A b x0 ce cx x :
+  mode_hyps_ok m n A b ce cx = true ->
+  cov_guard fixed ce cx ->
+  map_direct fixed m n A b x0 (Some ce) (Some cx) = Val x ->
+  exists Pe Px, qinv (dense_of true m ce) = Some Pe /\ qinv (dense_of true n cx) = Some Px /\
+    post_grad n A Pe Px b x0 x = qvzero n /\
+    forall y, length y = n -> post_q A Pe Px b x0 x <= post_q A Pe Px b x0 y.
+Proof.
+  unfold mode_hyps_ok. intros H G HM. apply andb_true_iff in H as [HH HP].
+  pose proof HH as HH0. unfold hyps_ok in HH.
+  apply andb_true_iff in HH as [HH HI]. apply andb_true_iff in HH as [HH Lb]. apply andb_true_iff in HH as [HH SCx].
+  apply andb_true_iff in HH as [SA SCe].
+  destruct (qinv (dense_of true m ce)) as [Pe|] eqn:IPe; [|discriminate].
+  destruct (qinv (dense_of true n cx)) as [Px|] eqn:IPx; [|discriminate].
+  apply andb_true_iff in HI as [KS _]. apply andb_true_iff in HP as [HP PSx]. apply andb_true_iff in HP as [KSx PSe].
+  destruct (shape_ok_spec _ _ _ SA) as [WA LA]. destruct (shape_ok_spec _ _ _ SCe) as [WCe LCe].
+  destruct (shape_ok_spec _ _ _ SCx) as [WCx LCx]. apply Nat.eqb_eq in Lb.
+  destruct (qinv_sound _ _ IPe) as [_ LPe]. destruct (qinv_sound _ _ IPx) as [_ LPx].
+  destruct (qinv_shape _ _ IPe) as [WPe SPe]. destruct (qinv_shape _ _ IPx) as [WPx SPx].
+  rewrite LCe in *. rewrite LCx in *.
+  assert (PE : is_prec m (dense_of true m ce) Pe).
+  { unfold is_prec. repeat split; try assumption.
+    - intros v Hv. apply (q_left_inverse m Pe _ v WCe LCe Hv LPe).
+    - apply q_sym_of_transpose; [exact WPe | apply qcll_eqb_eq; exact KS].
+    - apply psd_cert_sound. exact PSe. }
+  assert (PX : is_prec n (dense_of true n cx) Px).
+  { unfold is_prec. repeat split; try assumption.
+    - intros v Hv. apply (q_left_inverse n Px _ v WCx LCx Hv LPx).
+    - apply q_sym_of_transpose; [exact WPx | apply qcll_eqb_eq; exact KSx].
+    - apply psd_cert_sound. exact PSx. }
+  assert (W : lg_wf m n A (dense_of true m ce) (dense_of true n cx) b) by (unfold lg_wf; repeat split; assumption).
+  destruct (closed_form_is_posterior_mode fixed m n A b x0 ce cx x G HM W) as (_ & _ & K).
+  destruct (K Pe Px PE PX) as (K1 & K2 & _).
+  exists Pe, Px. repeat split; assumption.
 Qed.
